@@ -102,6 +102,7 @@ inductive Op where
   | gate (ok : Bool)     -- let the exporter call in progress return nil / an error
   | ff (fid : Nat)       -- ForceFlush(ctx) in its own goroutine
   | sd (k : Nat)         -- Shutdown(ctx) in its own goroutine
+  | timeout              -- wait until the per-export timeout of the call in progress has fired
   | pemit (id : Nat)     -- OnEmit that parks right after its stopped check (hook)
   | remit (id : Nat)     -- release it
   | pff (fid : Nat)      -- ForceFlush that parks right after its stopped check (hook)
@@ -128,6 +129,7 @@ def applyOp (s : St) : Op → St
   | .gate ok => (step s (.eEnd ok)).getD s
   | .ff fid => (step s (.ffCall fid)).getD s
   | .sd k => (step s (.sdCall k)).getD s
+  | .timeout => (step s .eTimeout).getD s
   | .pemit id => (step s (.accept id)).getD s
   | .pff fid => (step s (.ffCall fid)).getD s
   | .psd k => (step s (.sdCall k)).getD s
@@ -150,6 +152,10 @@ theorem applyOp_reachable {cap batch buf : Nat} (s : St) (op : Op)
     | some s' => simpa [hs] using Reachable.step _ h hs
   case sd k =>
     cases hs : step s (.sdCall k) with
+    | none => simpa [hs] using h
+    | some s' => simpa [hs] using Reachable.step _ h hs
+  case timeout =>
+    cases hs : step s .eTimeout with
     | none => simpa [hs] using h
     | some s' => simpa [hs] using Reachable.step _ h hs
   case pemit id =>
